@@ -476,6 +476,11 @@ def run(chk):
         random_formats(chk, 50 if quick else 1500)
         transform_fill_grid(chk)
         nested_groups(chk)
+        from . import painted_check
+
+        painted_check.end_to_end(chk, ["picosvg", "picosvgz", "untouchedsvg"], lambda c, font, cfg, srcs, ctx, replay: (
+            structural_checks(c, font, ctx, replay), check_pictures(c, font, cfg, srcs, None, 0.1, ctx, replay,
+                                                                    raw=cfg.color_format.startswith("untouched"))))
         reuse_fill_grid(chk)
         replay_gradient_model(chk)
         shared_gradient_documents(chk, 16 if quick else 400)
